@@ -374,7 +374,8 @@ type AnchorSet struct {
 	Store string
 	Send  string
 	Recv  string // "after recv CH": executed after a receive from CH (recv / recvok are bound)
-	Call  string // "at call NAME": executed just before a call of NAME
+	Call  string // "at call NAME": executed just before a call of NAME (the callee's parameter names are bound)
+	AfterCall string // "after call NAME": executed when the call returns (parameters and result / result0.. are bound)
 	Loop  int    // "at loop k": executed at the head of loop k on every iteration
 }
 
@@ -674,6 +675,9 @@ func parseContractFile(path, pkgPath string) (*ContractFile, error) {
 					body = rest[:i]
 				} else if i := strings.LastIndex(rest, " after recv "); i >= 0 {
 					as.Recv = strings.TrimSpace(rest[i+len(" after recv "):])
+					body = rest[:i]
+				} else if i := strings.LastIndex(rest, " after call "); i >= 0 {
+					as.AfterCall = strings.TrimSpace(rest[i+len(" after call "):])
 					body = rest[:i]
 				} else if i := strings.LastIndex(rest, " at call "); i >= 0 {
 					as.Call = strings.TrimSpace(rest[i+len(" at call "):])
